@@ -2,6 +2,7 @@ import SigpyVerif.Model.Py
 import SigpyVerif.Gen.ConvFormulas
 import SigpyVerif.Gen.ConvWiring
 import SigpyVerif.Gen.ConvParams
+import SigpyVerif.Gen.ConvLinops
 /-
   C08 model: `sigpy.conv` (CPU paths) — `_get_convolve_params`, `_convolve`, `_convolve_data_adjoint`,
   `_convolve_filter_adjoint`.
@@ -129,7 +130,8 @@ def convWiringOk : Bool :=
   Gen.convAccArr == .output && Gen.convAccIsAdd && Gen.convAccZeros && Gen.convOp == .convolve &&
   Gen.convModeArg == .mode && Gen.convResultSliced && Gen.convLhsArr == .data && Gen.convRhsArr == .filt &&
   Gen.convLayout_data == (.B, .ci, .m) && Gen.convLayout_filt == (.co, .ci, .n) &&
-  Gen.convLayout_output == (.B, .co, .p)
+  Gen.convLayout_output == (.B, .co, .p) &&
+  Gen.convParamsArgs == (.arrayShape .data, .arrayShape .filt)
 
 /-- the flags of `_convolve_data_adjoint` (`wrtData`) / `_convolve_filter_adjoint` this model relies on: the
     accumulated array is the right one, zero-initialised and updated by `+=`; scipy's `correlate` is called with
@@ -144,7 +146,8 @@ def adjWiringOk (wrtData : Bool) : Bool :=
     Gen.dataAdjStuffScope.contains Gen.dataAdjBufSrcIdx.1 && Gen.dataAdjStuffScope.contains Gen.dataAdjBufSrcIdx.2 &&
     Gen.dataAdjBufZerosFull && Gen.dataAdjBufZerosValid && Gen.dataAdjRhsArr == .filt &&
     Gen.dataAdjLayout_data == (.B, .ci, .m) && Gen.dataAdjLayout_filt == (.co, .ci, .n) &&
-    Gen.dataAdjLayout_output == (.B, .co, .p)
+    Gen.dataAdjLayout_output == (.B, .co, .p) &&
+    Gen.dataAdjParamsArgs == (.shapeParam, .arrayShape .filt)
   else
     Gen.filtAdjAccArr == .filt && Gen.filtAdjAccIsAdd && Gen.filtAdjAccZeros && Gen.filtAdjOp == .correlate &&
     Gen.filtAdjModeArg == .adjointMode && !Gen.filtAdjResultSliced && Gen.filtAdjLhsArr == .outputKj &&
@@ -152,7 +155,8 @@ def adjWiringOk (wrtData : Bool) : Bool :=
     Gen.filtAdjStuffScope.contains Gen.filtAdjBufSrcIdx.1 && Gen.filtAdjStuffScope.contains Gen.filtAdjBufSrcIdx.2 &&
     Gen.filtAdjBufZerosFull && Gen.filtAdjBufZerosValid && Gen.filtAdjRhsArr == .data &&
     Gen.filtAdjLayout_data == (.B, .ci, .m) && Gen.filtAdjLayout_filt == (.co, .ci, .n) &&
-    Gen.filtAdjLayout_output == (.B, .co, .p)
+    Gen.filtAdjLayout_output == (.B, .co, .p) &&
+    Gen.filtAdjParamsArgs == (.arrayShape .data, .shapeParam)
 
 /-! ### dtypes (real float64 / complex128): numpy's casting rules, hand-written contract
 
@@ -392,6 +396,12 @@ structure Split where
   co : Int
 deriving DecidableEq, Repr
 
+/-- the exception class the source raises at one of its explicit guards (`Gen.paramGuards`, generated) -/
+def guardExc (g : Gen.ConvGuard) : String :=
+  match Gen.paramGuards.find? (fun r => r.1 == g) with
+  | some r => r.2
+  | none => "unsupported-guard"
+
 /-- the first half of `_get_convolve_params`: `D`, `m`, `n`, `b`, the channel check, `c_i`, `c_o` -/
 def splitShapes (dsh fsh : List Int) (mc : Bool) : Except String Split :=
   let mcI : Int := if mc then 1 else 0
@@ -407,21 +417,59 @@ def splitShapes (dsh fsh : List Int) (mc : Bool) : Except String Split :=
         pyGet (shapeArg Gen.paramCiSrc dsh fsh) (Gen.paramCiIdx D mcI),
         pyGet (shapeArg Gen.paramCoSrc dsh fsh) (Gen.paramCoIdx D mcI) with
     | some l, some r, some ci, some co =>
-      if l ≠ r then .error "ValueError" else .ok { D := D, b := b, m := m, n := n, ci := ci, co := co }
+      if l ≠ r then .error (guardExc .channel) else .ok { D := D, b := b, m := m, n := n, ci := ci, co := co }
     | _, _, _, _ => .error "IndexError"
   else .ok { D := D, b := b, m := m, n := n, ci := Gen.paramCiDefault, co := Gen.paramCoDefault }
 
-/-- `_get_convolve_params` -/
-def getParams (dsh fsh : List Int) (full : Bool) (strides : Option (List Int)) (mc : Bool) :
-    Except String Params := do
-  let S ← splitShapes dsh fsh mc
-  let s ← match strides with
-    | none => pure (List.replicate S.D.toNat (1 : Int))
-    | some st => if (st.length : Int) ≠ S.D then throw "ValueError" else pure st
-  let p ← if full then pure (zip3With Gen.convFullLen S.m S.n s)
-    else if Gen.convValidRejects S.m S.n then throw "ValueError"
-    else pure (zip3With Gen.convValidLen S.m S.n s)
-  pure { b := S.b, B := shapeProd S.b, m := S.m, n := S.n, s := s, ci := S.ci, co := S.co, p := p }
+/-- the strides block of `_get_convolve_params` (default and length check from `Gen.ConvParams`) -/
+def getStrides (D : Int) (strides : Option (List Int)) : Except String (List Int) :=
+  match strides with
+  | none => .ok (Gen.paramStridesDefault D)
+  | some st => if Gen.paramStridesBad st.length D then .error (guardExc .stridesLen) else .ok st
+
+/-- the mode chain of `_get_convolve_params`; `mode = none`: a string other than 'full' / 'valid' -/
+def getP (mode : Option Bool) (m n s : List Int) : Except String (List Int) :=
+  match mode with
+  | some true => .ok (zip3With Gen.convFullLen m n s)
+  | some false =>
+    if Gen.convValidRejects m n then .error (guardExc .validSize) else .ok (zip3With Gen.convValidLen m n s)
+  | none => .error (guardExc .badMode)
+
+/-- `_get_convolve_params`: the guards fire in source order (channel count, strides length, valid-mode sizes / mode) -/
+def getParams (dsh fsh : List Int) (mode : Option Bool) (strides : Option (List Int)) (mc : Bool) :
+    Except String Params :=
+  match splitShapes dsh fsh mc with
+  | .error e => .error e
+  | .ok S =>
+    match getStrides S.D strides with
+    | .error e => .error e
+    | .ok s =>
+      match getP mode S.m S.n s with
+      | .error e => .error e
+      | .ok p =>
+        .ok { b := S.b, B := shapeProd S.b, m := S.m, n := S.n, s := s, ci := S.ci, co := S.co, p := p }
+
+/-- value of one summand of a generated shape expression (`dsh`, `fsh`: the shape arguments `_get_convolve_params`
+    was called with) -/
+def evalTerm (P : Params) (dsh fsh : List Int) : Gen.ConvShapeTerm → List Int
+  | .b => P.b
+  | .m => P.m
+  | .n => P.n
+  | .p => P.p
+  | .B => [P.B]
+  | .ci => [P.ci]
+  | .co => [P.co]
+  | .dataShapeArg => dsh
+  | .filtShapeArg => fsh
+
+/-- value of a generated shape expression `T1 + T2 + …` -/
+def evalShape (P : Params) (dsh fsh : List Int) (ts : List Gen.ConvShapeTerm) : List Int :=
+  ts.flatMap (evalTerm P dsh fsh)
+
+/-- the domain of the property: every extent and every stride is a positive integer (zero-size arrays and
+    non-positive strides are outside the statement; the model answers `err domain`, the harness never asks) -/
+def domainBad (P : Params) : Bool :=
+  (P.b ++ [P.ci, P.co] ++ P.m ++ P.n ++ P.s).any (· < 1)
 
 /-- sample `k` (already strided: `k` indexes the sliced result) of the N-D convolution of two zero-extended
     index functions, by definition: `Σ_i d[i]·f[k·s + off - i]` -/
@@ -442,19 +490,22 @@ def loopSumL (B co ci : Int) (acc : Gen.ConvDim × Gen.ConvDim) (s1 s2 : Int) (t
     | [b, o, c] => if pick acc.1 b o c = s1 ∧ pick acc.2 b o c = s2 then term b o c else 0
     | _ => 0
 
-/-- `_convolve`; `cd cf`: the data / filter array has a complex dtype -/
-def convolve (dsh fsh : List Int) (full : Bool) (strides : Option (List Int)) (mc : Bool) (cd cf : Bool)
-    (data filt : Array α) : Except String (List Int × Array α) := do
-  if !convWiringOk then throw "unsupported-wiring"
-  let P ← getParams dsh fsh full strides mc
-  if P.p.any (· < 0) then throw "ValueError"          -- np.zeros with a negative dimension
-  let dshN := [P.B, P.ci] ++ P.m
-  let fshN := [P.co, P.ci] ++ P.n
+/-- `_convolve` after `_get_convolve_params` returned `P`: an explicit guard chain (every `.error` is one way the
+    real function raises), then the value.  `dsize fsize`: number of elements of the caller's arrays. -/
+def convolveCore (P : Params) (dsh fsh : List Int) (full mc cd cf : Bool) (data filt : Array α) :
+    Except String (List Int × Array α) :=
+  if domainBad P then .error "domain" else
+  let dshN := evalShape P dsh fsh Gen.convNorm_data
+  let fshN := evalShape P dsh fsh Gen.convNorm_filt
+  let oshN := evalShape P dsh fsh Gen.convNorm_output
+  -- `data.reshape((B, c_i) + m)`, `filt.reshape((c_o, c_i) + n)`: the element counts must agree
+  if npReshape (shapeProd dsh) dshN ≠ some dshN ∨ npReshape (shapeProd fsh) fshN ≠ some fshN then .error "ValueError" else
+  if P.p.any (· < 0) then .error "ValueError" else          -- np.zeros with a negative dimension
   let q := List.zipWith sliceLen (List.zipWith (scipyLen full) P.m P.n) P.s   -- shape of convolve(...)[slc]
-  if convOutcome cd cf == .typeError then throw "TypeError"   -- `output[k, j] += <complex>` into a real array
-  if !bcast q P.p then throw "ValueError"              -- `output[k, j] += …` must broadcast
+  if convOutcome cd cf == .typeError then .error "TypeError" else   -- `output[k, j] += <complex>` into a real array
+  if !bcast q P.p then .error "ValueError" else              -- `output[k, j] += …` must broadcast
   let off := List.zipWith (convOff full) P.m P.n
-  let out := (allIdx ([P.B, P.co] ++ P.p)).map fun idx =>
+  let out := (allIdx oshN).map fun idx =>
     match idx with
     | k :: j :: kk =>
       loopSumL P.B P.co P.ci Gen.convAccIdx k j fun b o c =>
@@ -462,36 +513,58 @@ def convolve (dsh fsh : List Int) (full : Bool) (strides : Option (List Int)) (m
           (fun jj => readZ fshN filt (pick Gen.convRhsIdx.1 b o c :: pick Gen.convRhsIdx.2 b o c :: jj))
           off P.s (bIdx q kk)
     | _ => 0
-  pure (P.b ++ (if mc then [P.co] else []) ++ P.p, out.toArray)
+  -- `output.reshape(b + (c_o,) + p)` / `output.reshape(b + p)`
+  match npReshape (shapeProd oshN) (evalShape P dsh fsh (if mc then Gen.convFinalMc else Gen.convFinalSc)) with
+  | none => .error "ValueError"
+  | some fin => .ok (fin, out.toArray)
 
-/-- `_convolve_data_adjoint` (`wrtData = true`: `other` is the filter, result has shape `dsh`) and
-    `_convolve_filter_adjoint` (`wrtData = false`: `other` is the data, result has shape `fsh`).
-    `ysh` is the shape of the `output` argument as passed by the caller; `cd cf cy`: the data / filter / output-side
-    array has a complex dtype; `re`: real part (what numpy keeps when it casts complex to real). -/
-def adjoint (conj re : α → α) (wrtData : Bool) (dsh fsh : List Int) (full : Bool)
-    (strides : Option (List Int)) (mc : Bool) (cd cf cy : Bool) (ysh : List Int) (y other : Array α) :
-    Except String (List Int × Array α) := do
-  if !adjWiringOk wrtData then throw "unsupported-wiring"
-  let P ← getParams dsh fsh full strides mc
-  let some yshN := npReshape (shapeProd ysh) ([P.B, P.co] ++ P.p) | throw "ValueError"
+/-- `_convolve`; `cd cf`: the data / filter array has a complex dtype; `mode = none`: an invalid mode string -/
+def convolveM (dsh fsh : List Int) (mode : Option Bool) (strides : Option (List Int)) (mc : Bool) (cd cf : Bool)
+    (data filt : Array α) : Except String (List Int × Array α) :=
+  if !convWiringOk then .error "unsupported-wiring" else
+  match getParams dsh fsh mode strides mc with
+  | .error e => .error e
+  | .ok P => convolveCore P dsh fsh (mode.getD true) mc cd cf data filt
+
+def convolve (dsh fsh : List Int) (full : Bool) (strides : Option (List Int)) (mc : Bool) (cd cf : Bool)
+    (data filt : Array α) : Except String (List Int × Array α) :=
+  convolveM dsh fsh (some full) strides mc cd cf data filt
+
+/-- the zero-stuffed buffer lengths / correlate mode / frozen-operand lengths of the two adjoints -/
+def adjL (wrtData full : Bool) (P : Params) : List Int :=
+  if wrtData then List.zipWith (if full then Gen.dataAdjBufLenFull else Gen.dataAdjBufLenValid) P.m P.n
+  else List.zipWith (if full then Gen.filtAdjBufLenFull else Gen.filtAdjBufLenValid) P.m P.n
+
+def adjCF (wrtData full : Bool) (P : Params) : Bool :=
+  if wrtData then Gen.dataAdjCorrFull full P.m P.n else Gen.filtAdjCorrFull full P.m P.n
+
+/-- `_convolve_data_adjoint` / `_convolve_filter_adjoint` after `_get_convolve_params` returned `P` -/
+def adjointCore (conj re : α → α) (wrtData : Bool) (P : Params) (dsh fsh : List Int) (full mc cd cf cy : Bool)
+    (ysh : List Int) (osh : List Int) (y other : Array α) : Except String (List Int × Array α) :=
+  if domainBad P then .error "domain" else
+  let dshN := evalShape P dsh fsh (if wrtData then Gen.dataAdjNorm_data else Gen.filtAdjNorm_data)
+  let fshN := evalShape P dsh fsh (if wrtData then Gen.dataAdjNorm_filt else Gen.filtAdjNorm_filt)
+  let oshN := evalShape P dsh fsh (if wrtData then Gen.dataAdjNorm_output else Gen.filtAdjNorm_output)
+  -- `output.reshape((B, c_o) + p)`, `<frozen operand>.reshape(…)`
+  match npReshape (shapeProd ysh) oshN with
+  | none => .error "ValueError"
+  | some yshN =>
+  let otherN := if wrtData then fshN else dshN
+  if npReshape (shapeProd osh) otherN ≠ some otherN then .error "ValueError" else
   let p' := yshN.drop 2
-  let dshN := [P.B, P.ci] ++ P.m
-  let fshN := [P.co, P.ci] ++ P.n
-  let L := if wrtData then
-      List.zipWith (if full then Gen.dataAdjBufLenFull else Gen.dataAdjBufLenValid) P.m P.n
-    else List.zipWith (if full then Gen.filtAdjBufLenFull else Gen.filtAdjBufLenValid) P.m P.n
-  let cf' := if wrtData then Gen.dataAdjCorrFull full P.m P.n else Gen.filtAdjCorrFull full P.m P.n
+  let L := adjL wrtData full P
+  let cf' := adjCF wrtData full P
   let q := List.zipWith sliceLen L P.s                 -- shape of `output_kj[slc]`
-  if !bcast p' q then throw "ValueError"               -- `output_kj[slc] = output[k, j]`
+  if !bcast p' q then .error "ValueError" else         -- `output_kj[slc] = output[k, j]`
   let nv := if wrtData then P.n else P.m
   let tgt := if wrtData then P.m else P.n
   -- scipy 'valid' needs one operand at least as large as the other on every axis
   if !cf' ∧ !((List.zip L nv).all (fun (a, b) => a ≥ b) ∨ (List.zip L nv).all (fun (a, b) => b ≥ a)) then
-    throw "ValueError"
+    .error "ValueError" else
   let outcome := adjOutcome wrtData full cd cf cy
-  if outcome == .typeError then throw "TypeError"      -- `data[k, i] += <complex>` into a real array
+  if outcome == .typeError then .error "TypeError" else   -- `data[k, i] += <complex>` into a real array
   let cl := List.zipWith (scipyLen cf') L nv
-  if !bcast cl tgt then throw "ValueError"             -- `data[k, i] += correlate(...)`
+  if !bcast cl tgt then .error "ValueError" else          -- `data[k, i] += correlate(...)`
   let shift := List.zipWith (corrShift cf') L nv
   let cast (v : α) : α := if outcome == .dropsImag then re v else v   -- `output_kj[slc] = …` into a real buffer
   let z (k j : Int) (t : List Int) : α :=
@@ -501,15 +574,113 @@ def adjoint (conj re : α → α) (wrtData : Bool) (dsh fsh : List Int) (full : 
   let accIdx := if wrtData then Gen.dataAdjAccIdx else Gen.filtAdjAccIdx
   let srcIdx := if wrtData then Gen.dataAdjBufSrcIdx else Gen.filtAdjBufSrcIdx
   let rhsIdx := if wrtData then Gen.dataAdjRhsIdx else Gen.filtAdjRhsIdx
-  let oshN := if wrtData then fshN else dshN
-  let out := (allIdx (if wrtData then dshN else fshN)).map fun idx =>
+  let resN := if wrtData then dshN else fshN
+  let out := (allIdx resN).map fun idx =>
     match idx with
     | s1 :: s2 :: ii =>
       loopSumL P.B P.co P.ci accIdx s1 s2 fun b o c =>
         corrNDAt conj nv (z (pick srcIdx.1 b o c) (pick srcIdx.2 b o c))
-          (fun jj => readZ oshN other (pick rhsIdx.1 b o c :: pick rhsIdx.2 b o c :: jj)) shift (bIdx cl ii)
+          (fun jj => readZ otherN other (pick rhsIdx.1 b o c :: pick rhsIdx.2 b o c :: jj)) shift (bIdx cl ii)
     | _ => 0
-  pure (if wrtData then dsh else fsh, out.toArray)
+  -- `data.reshape(data_shape)` / `filt.reshape(filt_shape)`
+  let finT := if wrtData then (if mc then Gen.dataAdjFinalMc else Gen.dataAdjFinalSc)
+    else (if mc then Gen.filtAdjFinalMc else Gen.filtAdjFinalSc)
+  match npReshape (shapeProd resN) (evalShape P dsh fsh finT) with
+  | none => .error "ValueError"
+  | some fin => .ok (fin, out.toArray)
+
+/-- `_convolve_data_adjoint` (`wrtData = true`: `other` is the filter, result has shape `dsh`) and
+    `_convolve_filter_adjoint` (`wrtData = false`: `other` is the data, result has shape `fsh`).
+    `dsh fsh`: the shape arguments handed to `_get_convolve_params` (generated: `…ParamsArgs`; for the data adjoint the
+    `data_shape` parameter and `filt.shape`, for the filter adjoint `data.shape` and the `filt_shape` parameter);
+    `ysh`: the shape of the `output` argument as passed by the caller; `cd cf cy`: the data / filter / output-side
+    array has a complex dtype; `re`: real part (what numpy keeps when it casts complex to real). -/
+def adjointM (conj re : α → α) (wrtData : Bool) (dsh fsh : List Int) (mode : Option Bool)
+    (strides : Option (List Int)) (mc : Bool) (cd cf cy : Bool) (ysh : List Int) (y other : Array α) :
+    Except String (List Int × Array α) :=
+  if !adjWiringOk wrtData then .error "unsupported-wiring" else
+  match getParams dsh fsh mode strides mc with
+  | .error e => .error e
+  | .ok P => adjointCore conj re wrtData P dsh fsh (mode.getD true) mc cd cf cy ysh (if wrtData then fsh else dsh) y other
+
+def adjoint (conj re : α → α) (wrtData : Bool) (dsh fsh : List Int) (full : Bool)
+    (strides : Option (List Int)) (mc : Bool) (cd cf cy : Bool) (ysh : List Int) (y other : Array α) :
+    Except String (List Int × Array α) :=
+  adjointM conj re wrtData dsh fsh (some full) strides mc cd cf cy ysh y other
+
+/-! ### the four Linop classes, interpreted from their generated description (`Gen.ConvLinops`) -/
+
+/-- constructor arguments of a Convolve* Linop: its shape argument, the shape of the array it freezes, mode
+    (`none`: invalid string), strides, multi_channel -/
+structure LinopCfg where
+  shapeArg : List Int
+  arrShape : List Int
+  mode : Option Bool
+  strides : Option (List Int)
+  mc : Bool
+deriving Repr, DecidableEq
+
+/-- `__init__`: `(oshape, ishape)` as registered by `super().__init__`, from the class's generated description:
+    `_get_convolve_params(<paramsArgs>)`, `output_shape = b + (c_o,) + p | b + p`, then `Linop.__init__`, which rejects
+    a non-positive extent (`_check_shape_positive`: ValueError; hand-written contract of the base class) -/
+def linopShapes (c : Gen.ConvCls) (g : LinopCfg) : Except String (List Int × List Int) :=
+  let L := Gen.convLinop c
+  if !(L.stores && L.outputShapeOk) then .error "unsupported-wiring" else
+  let sh : Gen.LinopShape → Option (List Int)
+    | .shapeArg => some g.shapeArg
+    | .arrayShape => some g.arrShape
+    | .outputShape => none
+  match sh L.paramsArgs.1, sh L.paramsArgs.2 with
+  | some dsh, some fsh =>
+    match getParams dsh fsh g.mode g.strides g.mc with
+    | .error e => .error e
+    | .ok P =>
+      let res : Gen.LinopShape → List Int
+        | .shapeArg => g.shapeArg
+        | .arrayShape => g.arrShape
+        | .outputShape => P.b ++ (if g.mc then [P.co] else []) ++ P.p
+      let o := res L.superArgs.1
+      let i := res L.superArgs.2
+      if (o ++ i).any (· ≤ 0) then .error "ValueError" else .ok (o, i)
+  | _, _ => .error "unsupported-wiring"
+
+/-- `A.H`: class and constructor arguments `_adjoint_linop` builds (the frozen array object is passed on unchanged) -/
+def linopAdjoint (c : Gen.ConvCls) (g : LinopCfg) : Except String (Gen.ConvCls × LinopCfg) :=
+  let L := Gen.convLinop c
+  match linopShapes c g with
+  | .error e => .error e
+  | .ok (o, i) =>
+    if L.adjPasses != (true, true, true) then .error "unsupported-wiring" else
+    match L.adjArgs with
+    | [a, .array] =>
+      match a with
+      | .oshape => .ok (L.adjClass, { g with shapeArg := o })
+      | .ishape => .ok (L.adjClass, { g with shapeArg := i })
+      | _ => .error "unsupported-wiring"
+    | _ => .error "unsupported-wiring"
+
+/-- `A(input)`: `Linop.apply` checks `input.shape == ishape` (ValueError), then `_apply` makes the generated `conv.*`
+    call; `arr`: the frozen array, `ca ci`: the frozen / the input array has a complex dtype -/
+def linopApply (conj re : α → α) (c : Gen.ConvCls) (g : LinopCfg) (ca ci : Bool) (arr : Array α)
+    (ish : List Int) (input : Array α) : Except String (List Int × Array α) :=
+  let L := Gen.convLinop c
+  match linopShapes c g with
+  | .error e => .error e
+  | .ok (o, i) =>
+    if ish ≠ i then .error "ValueError" else
+    if L.applyPasses != (true, true, true) then .error "unsupported-wiring" else
+    let r := match L.applyFn, L.applyArgs with
+      | .convolve, [.input, .array] => convolveM ish g.arrShape g.mode g.strides g.mc ci ca input arr
+      | .convolve, [.array, .input] => convolveM g.arrShape ish g.mode g.strides g.mc ca ci arr input
+      | .dataAdjoint, [.input, .array, .oshape] => adjointM conj re true o g.arrShape g.mode g.strides g.mc false ca ci ish input arr
+      | .dataAdjoint, [.input, .array, .ishape] => adjointM conj re true i g.arrShape g.mode g.strides g.mc false ca ci ish input arr
+      | .filterAdjoint, [.input, .array, .oshape] => adjointM conj re false g.arrShape o g.mode g.strides g.mc ca false ci ish input arr
+      | .filterAdjoint, [.input, .array, .ishape] => adjointM conj re false g.arrShape i g.mode g.strides g.mc ca false ci ish input arr
+      | _, _ => .error "unsupported-wiring"
+    -- `Linop.apply` checks `output.shape == oshape` (ValueError)
+    match r with
+    | .error e => .error e
+    | .ok (sh, a) => if sh ≠ o then .error "ValueError" else .ok (sh, a)
 
 end generic
 
